@@ -192,8 +192,10 @@ func checkRaceLog(r *vf.Run, caseID, prefix string) int {
 // newCmd prepares a long-running child (server) with output to a log file.
 func newCmd(bin string, args []string, env []string, log *os.File) *exec.Cmd {
 	cmd := exec.Command(bin, args...)
-	cmd.Stdout = log
-	cmd.Stderr = log
+	if log != nil {
+		cmd.Stdout = log
+		cmd.Stderr = log
+	}
 	cmd.Env = append(os.Environ(), env...)
 	cmd.SysProcAttr = &syscall.SysProcAttr{Setpgid: true, Pdeathsig: syscall.SIGKILL}
 	return cmd
